@@ -91,7 +91,7 @@ func (x *Exec) oblige(fnName, kind, label, text string, tags []string, pos strin
 	x.autoUnfold(body.S, 2)
 	g := &Goal{Name: x.goalName(fnName, kind, label), Func: fnName, Kind: kind, Tags: tags, Text: text, Pos: pos}
 	x.C.AddGoal(g, guard, body)
-	x.C.Assume(guard, body)
+	x.C.AssumeSoft(guard, body)
 }
 
 func (x *Exec) safety(fr *Frame, label, text string, pos token.Pos, guard, body Term) {
@@ -841,7 +841,7 @@ func (x *Exec) cutLoop(fr *Frame, li *loopInfo, bc Term, st State) State {
 				panic(fmt.Sprintf("contract error: %s loop %d invariant %s: %v", fnName, li.ordinal, cl.Label, err))
 			}
 			x.autoUnfold(t.S, 2)
-			x.C.Assume(bc, t)
+			x.C.AssumeSoft(bc, t)
 		}
 	}
 	return nst
